@@ -136,7 +136,7 @@ UNIT = {
         {'rule': 'R6', 'find': 'for section in xref_sections {', 'replace': G_FOR, 'count': 2},
         {'rule': 'R1', 'find': 'let mut prev_trailer = {', 'replace': G_BEFORE_PREV},
         {'rule': 'R1+R2', 'find': 'let mut seen = vec![];', 'replace': G_SEEN},   # R2: element type ascribed (inference across the injected invariant)
-        {'rule': 'R7', 'find': 'seen.contains(&prev_xref_offset)', 'replace': 'hoist_contains(&seen, prev_xref_offset)'},
+        {'rule': 'R7', 'regex': r'seen\.contains\(&(.*?)\)', 'replace': r'hoist_contains(&seen, \1)'},
         {'rule': 'R1', 'find': 'seen.push(prev_xref_offset);', 'replace': G_PUSH},
         {'rule': 'R1', 'regex': r'(?<!mut )prev_trailer = \{', 'replace': G_LOOP_END},
         {'rule': 'R1', 'find': 'Ok((refs, trailer))', 'replace': G_END},
